@@ -131,6 +131,11 @@ def gen_op(rng, q, maxnf=5):
         kind = rng.random()
         if kind < 0.15:
             return ['set_dofs', [float(v) for v in x]]              # set_dofs(get_dofs())
+        if kind < 0.22:
+            # exactly one scalar changes (B0, or I2): every output that depends on it has to follow, whatever else stayed the same
+            kk_ = 4 * n + (6 if rng.random() < 0.6 else 5)
+            x[kk_] = x[kk_] * 1.3 + (0.0 if kk_ == 4 * n + 6 else 0.2)
+            return ['set_dofs', [float(v) for v in x]]
         if kind < 0.30:
             # a finite-difference sized step: every non-zero entry moved by a relative 1e-8 .. 1e-6, sigma0 possibly from 0 to a few 1e-9 (the object must
             # follow however small the change is)
